@@ -182,7 +182,7 @@ def kids(n):
         v = n.get(key)
         if isinstance(v, list):
             out.extend(x for x in v if isinstance(x, dict))
-    if k == "init":
+    if k in ("init", "agg"):
         for f in n.get("fields", []):
             if isinstance(f.get("e"), dict):
                 out.append(f["e"])
